@@ -18,7 +18,8 @@ class C04(c01.C01):
     required_counters = ('models.judged', 'market_demand_not_sum_of_declared_demands.judged',
                          'supplier_amounts_do_not_add_up_to_supply.judged',
                          'participant_variable_not_market_assigned_amount.judged',
-                         'sector_ledger_not_sum_of_declared_flows.judged')
+                         'sector_ledger_not_sum_of_declared_flows.judged', 'asset_demands_do_not_add_up_to_wealth.judged',
+                         'models.judged.with_portfolio_rule_object_shared_by_households')
     which = ('markets', 'ledger')
 
     def make_case(self, rng, idx, tier):
